@@ -699,6 +699,97 @@ Section SubSlot.
     unfold sschedule. apply sloop_linv. intros l k. unfold susage. rewrite sprepass_booked. cbn. lia.
   Qed.
 
+  (* ------------------------------------------------------------ every ledger entry has its booking event *)
+  Definition ECov (st : sstate) : Prop := forall t r s, tent t (cells st r s) <> [] -> In (t, r, s) (sbooked st).
+
+  Lemma ecov_set_same st r s c : ECov st -> (forall u, tent u c = tent u (cells st r s)) -> ECov (set_cell st r s c).
+  Proof.
+    intros He Hc t r' s' H. cbn [set_cell sbooked]. apply He.
+    destruct (Nat.eq_dec r' r) as [->|Hr]; [destruct (Nat.eq_dec s' s) as [->|Hs]|].
+    - rewrite cells_set_same in H. now rewrite <- Hc.
+    - now rewrite cells_set_other in H by (right; exact Hs).
+    - now rewrite cells_set_other in H by (left; exact Hr).
+  Qed.
+
+  Lemma ecov_book st r s c t : ECov st -> (forall u, u <> t -> tent u c = tent u (cells st r s)) ->
+    ECov (note_booking (set_cell st r s c) t r s).
+  Proof.
+    intros He Hc u r' s' H. cbn [note_booking sbooked set_cell]. rewrite cells_note in H.
+    destruct (Nat.eq_dec r' r) as [->|Hr]; [destruct (Nat.eq_dec s' s) as [->|Hs]|].
+    - destruct (Nat.eq_dec u t) as [->|Hu]; [now left|]. right. apply He.
+      rewrite cells_set_same in H. now rewrite <- (Hc u Hu).
+    - right. apply He. now rewrite cells_set_other in H by (right; exact Hs).
+    - right. apply He. now rewrite cells_set_other in H by (left; exact Hr).
+  Qed.
+
+  Local Opaque step.
+  Lemma swalk_ecov t r e need off : forall fuel slot done start st st' d,
+    ECov st -> swalk p t r e need off fuel slot done start st = (st', d) -> ECov st'.
+  Proof.
+    induction fuel as [|fuel IH]; intros slot done start st st' d Hi H; cbn [swalk] in H; [now injection H as <- _|].
+    destruct (sr_work (sres_of p r) slot); [|eapply IH; eassumption].
+    set (c0 := cells st r slot) in *.
+    set (c1 := if Qeq_bool done 0 then step G c0 (Offset off) else c0) in *.
+    assert (Ht1 : forall u, tent u c1 = tent u c0) by (intros u; unfold c1; destruct (Qeq_bool done 0); [apply tent_offset|reflexivity]).
+    destruct (_ || _ || _).
+    - eapply IH; [|exact H]. apply ecov_set_same; [exact Hi|exact Ht1].
+    - destruct (Qle_bool _ _).
+      + injection H as <- _. apply ecov_book; [exact Hi|]. intros u Hu.
+        rewrite tent_finish_other, tent_book_other by exact Hu. apply Ht1.
+      + eapply IH; [|exact H]. apply ecov_book; [exact Hi|]. intros u Hu. rewrite tent_book_other by exact Hu. apply Ht1.
+  Qed.
+  Local Transparent step.
+
+  Lemma sschedule_task_ecov st t : ECov st -> ECov (sschedule_task p st t).
+  Proof.
+    intros Hi. unfold sschedule_task. cbn zeta.
+    destruct ((sbound p st t <? 0)%Z || (Z.of_nat (sp_upper p) <? sbound p st t / sp_G p)%Z); [exact Hi|].
+    destruct (s_mile (stask_of p t)); [exact Hi|].
+    destruct (swalk p t _ _ _ _ _ _ 0 None st) as [st' d] eqn:Ew.
+    pose proof (swalk_ecov _ _ _ _ _ _ _ _ _ _ _ _ Hi Ew) as Hi'. destruct d; exact Hi'.
+  Qed.
+
+  Lemma sloop_ecov : forall fuel work st, ECov st -> ECov (sloop p fuel work st).
+  Proof.
+    induction fuel as [|fuel IH]; intros work st Hi; cbn [sloop]; [exact Hi|].
+    destruct (spick p st work) as [[t rest]|]; [|exact Hi]. apply IH. now apply sschedule_task_ecov.
+  Qed.
+
+  Lemma sprepass_cells : cells (sprepass p) = cells sinit.
+  Proof.
+    unfold sprepass. generalize (seq 0 (length (sp_tasks p))). intros l.
+    assert (H : forall st, cells (fold_left (fun st t => let k := stask_of p t in
+                         if s_leaf k && s_mile k
+                         then match s_pin k with
+                              | Some s => if (0 <=? s)%Z && (s / sp_G p <=? Z.of_nat (sp_upper p))%Z then splace st t (s, s) else st
+                              | None => st end
+                         else st) l st) = cells st).
+    { induction l as [|u l IH]; intros st; cbn [fold_left]; [reflexivity|]. rewrite IH. cbn zeta.
+      destruct (s_leaf _ && s_mile _); [|reflexivity]. destruct (s_pin _) as [s|]; [|reflexivity].
+      destruct ((0 <=? s)%Z && _); reflexivity. }
+    apply H.
+  Qed.
+
+  Theorem sschedule_ecov : ECov (sschedule p).
+  Proof.
+    unfold sschedule. apply sloop_ecov. intros t r s H. rewrite sprepass_cells in H. now elim H.
+  Qed.
+
+  (* C05 (seconds), in terms of the ledger: the (task, resource, slot) cells that hold work counted by a limit in
+     one period are at most the limit's value many - each holds at most one slot length (C01_subslot), so the
+     working time a limit counts in a period never exceeds value x slot length = the declared limit *)
+  Theorem subslot_limit_cells l k (L : list (nat * nat * nat)) : NoDup L ->
+    (forall b, In b L -> tent (fst (fst b)) (cells (sschedule p) (snd (fst b)) (snd b)) <> [] /\
+                        scounts p l b = true /\ sl_period (slim_of p l) (snd b) = k) ->
+    (length L <= sl_value (slim_of p l))%nat.
+  Proof.
+    intros Hnd HL. eapply Nat.le_trans; [|apply (subslot_limits l k)]. unfold susage.
+    apply NoDup_incl_length; [exact Hnd|]. intros b Hb. destruct (HL b Hb) as (H1 & H2 & H3).
+    apply filter_In. split.
+    - destruct b as [[t r] s]. apply sschedule_ecov. exact H1.
+    - rewrite H2, H3, Z.eqb_refl. reflexivity.
+  Qed.
+
   (* ------------------------------------------------------------ the whole run *)
   Lemma sloop_JS : forall fuel work st, SInv st -> JS st work -> exists rest, JS (sloop p fuel work st) rest.
   Proof.
